@@ -117,6 +117,23 @@ func init() {
 		rule: "plans = 1-2 raw contract-client requests on RPCs with path variables and/or query parameters: verb x body {absent, empty, {}, object omitting the URL-bound fields, object with other fields} x codec {JSON, protobuf} x URL values {valid boundary values, unconvertible value on one field, required query parameter left out}, delivered fragmented and delayed; oracle = handler-visible message equals URL-bound fields from the URL + body fields, or 400 naming the field and no dispatch; distinct_nontrivial counts distinct (world, rpc, server, codec, body kind, outcome, field shape) tuples",
 		technique: "deterministic simulation: contract client emitting raw requests over the simulated link, reference binding model as oracle",
 	}
+	props["C08"] = &propCfg{
+		id: "C08", level: "exploration", design: "DESIGN.md §4 C08", modes: []string{"ts-go", "go-ts", "ts-ts"}, needTS: true,
+		quick: tierCfg{worlds: 8, batchSize: 16, checks: 60, timeoutS: 300},
+		thor:  tierCfg{worlds: 48, batchSize: 24, checks: 300, timeoutS: 1800},
+		genCfg: func(seed uint64, name string) gen.Config {
+			a := safeAllow()
+			delete(a, gen.FHeaderOverride) // case-variant overriding is C09's subject
+			return gen.Config{Seed: seed, Name: name, Allow: a, TSSafe: true}
+		},
+		probes: func() []*spec.World {
+			return []*spec.World{probe("ptspathquery", "path-variable+query-on-bodyless-route", gen.RPathQueryTS, gen.FPathVars, gen.FQuery)}
+		},
+		rule: "plans = 1-3 calls per language pair (TS client -> Go server, Go client -> TS server, TS client -> TS server); the generated TS modules run unmodified in Node 22 behind a lock-step bridge (injected fetch, Request->Response route handlers) on the same simulated link as the Go nodes; values drawn per field kind (finite floats), headers via generic and typed helper options of both clients, AbortSignal mid-flight; oracle = delivery oracle on the contract JSON form + modules load; distinct_nontrivial counts distinct (world, rpc, client>server, outcome) tuples",
+		technique: "deterministic co-simulation: generated TS code in Node 22 driven lock-step by the Go kernel over the simulated link; delivery oracle per call",
+		real:      []string{"generated TS client and server modules (unmodified, Node 22 type stripping)", "Node fetch primitives (Request, Response, Headers, URL, URLSearchParams, AbortSignal)"},
+		stubs:     []string{"TS application handlers (proxied to the Go app node)", "the hosting framework's route matcher (segment-wise template match in the bridge)"},
+	}
 	props["C09"] = &propCfg{
 		id: "C09", level: "exploration", design: "DESIGN.md §4 C09", modes: []string{"headers"},
 		quick: tierCfg{worlds: 10, batchSize: 16, checks: 200, timeoutS: 240},
